@@ -541,6 +541,64 @@ def check_c19(tier, seed):
     shutil.rmtree(wd, ignore_errors=True)
     return 1 if st["violations"] else 0
 
+def selftest():
+    """The framework checking itself (DESIGN.md 5.7): (1) the properties are not vacuous on the model - instances of the
+    specification that model the pinned, defective code are rejected by TLC; (2) the binding is real - corrupting one
+    field of a recorded trace or dropping one line makes the conformance specification report DRIFT at that line, and
+    corrupting a node-side result makes the Observer report TOOL."""
+    wd = f"{VERIF}/work/selftest"
+    shutil.rmtree(wd, ignore_errors=True); os.makedirs(wd)
+    run.cargo_build()
+    ok = True
+    def expect(label, cond):
+        nonlocal ok
+        print(("ok   " if cond else "FAIL ") + label)
+        ok = ok and cond
+    # 1. pinned instances must be rejected
+    for name, what in (("pinned_d5", "PC02"), ("pinned_d5p", "PC15"), ("pinned_d4w", "C09design"), ("rfaults", "PC06")):
+        m = models.MODELS[name]; models.consts_of(name)
+        cfgp = f"{wd}/{name}.cfg"
+        open(cfgp, "w").write(models.check_cfg(m, m["props"] or models.ALLPROPS))
+        env = dict(os.environ, JAVA_TOOL_OPTIONS="-DTLA-Library=" + VERIF + "/spec")
+        p = subprocess.run(["timeout", "900", "tlc", "-workers", "8", "-metadir", f"{wd}/m_{name}", "-cleanup", "-noGenerateSpecTE",
+                            "-config", cfgp, f"{VERIF}/spec/mc/MC_{name}.tla"], cwd=VERIF + "/spec/mc", env=env, capture_output=True, text=True)
+        expect(f"instance {name} (defect modelled) violates {what}", f"{what} is violated" in p.stdout)
+    # 2. the binding
+    scheds = life.schedules_from_tlc("restart", wd, 2000, 1, 600, 150)
+    sc = models.scenario("restart")
+    jobs = [{"run": k + 1, "scen": sc, "sched": s_, "tag": "tlc:restart"} for k, s_ in enumerate(scheds)]
+    f = run.run_harness(jobs, wd + "/h", nproc=1)[0]
+    okc, dr, _ = run.conform("restart", f, wd + "/cf")
+    expect(f"unchanged trace of {len(jobs)} runs is accepted by CF_restart", okc and not dr)
+    lines = open(f).read().splitlines()
+    def mutated(fn):
+        for k, l in enumerate(lines):
+            r = fn(k, l)
+            if r is not None:
+                x = list(lines)
+                if r == "":
+                    del x[k]
+                else:
+                    x[k] = r
+                open(wd + "/c.ndjson", "w").write("\n".join(x) + "\n")
+                return k + 1
+        return None
+    k = mutated(lambda k, l: l.replace('"code":"tramp"', '"code":"node"', 1) if '"code":"tramp"' in l else None)
+    _, dr, _ = run.conform("restart", wd + "/c.ndjson", wd + "/cf")
+    expect(f"answer code corrupted at line {k}: DRIFT reported there", any(d[0] == k for d in dr))
+    k = mutated(lambda k, l: "" if '"ev":"deliver"' in l and '"o":"issue"' in l and k > 100 else None)
+    _, dr, _ = run.conform("restart", wd + "/c.ndjson", wd + "/cf")
+    expect(f"deliver line {k} (whose burst issued a call) dropped: DRIFT reported in that run", any(k <= d[0] <= k + 40 for d in dr))
+    k = mutated(lambda k, l: l.replace('"gen":0,', '"gen":7,') if '"o":"issue"' in l and '"mode":"mr"' in l and '"gen":0,' in l else None)
+    _, dr, _ = run.conform("restart", wd + "/c.ndjson", wd + "/cf")
+    expect(f"issued generation corrupted at line {k}: DRIFT reported there", any(d[0] == k for d in dr))
+    k = mutated(lambda k, l: l.replace('"st":"absent"', '"st":"free"') if '"ev":"exec"' in l and '"st":"absent"' in l else None)
+    viol, _ = run.observe([wd + "/c.ndjson"], wd + "/o")
+    expect(f"node-side result corrupted at line {k}: Observer reports TOOL", any("TOOL" in v[0] | v[1] for v in viol.values()))
+    shutil.rmtree(wd, ignore_errors=True)
+    print("selftest:", "all as expected" if ok else "SOMETHING IS OFF")
+    return 0 if ok else 2
+
 def check(pid, tier, seed):
     if pid == "C19":
         return check_c19(tier, seed)
